@@ -389,6 +389,17 @@ func (u *Universe) headerFor(body string) string {
 			sb.WriteString("\n")
 		}
 	}
+	// distinct string literals have distinct canonical keys (map keys, string equality)
+	var ls []string
+	for _, n := range u.lits {
+		if containsSym(text, n) {
+			ls = append(ls, "(skey "+n+")")
+		}
+	}
+	if len(ls) >= 2 {
+		sort.Strings(ls)
+		sb.WriteString("(assert (distinct " + strings.Join(ls, " ") + "))\n")
+	}
 	return sb.String()
 }
 
